@@ -52,7 +52,9 @@ def step(I, gen, how, arg=None):
     hook = g.get('STEP_HOOK')
     if hook:
         hook(I, gen, how)
-    c = I.st.choice(5, how)
+    c = I.st.choice(6, how)
+    base_exc = c == 5      # a BaseException that is not an Exception (CancelledError, GeneratorExit, user class): same duties as c == 4
+    c = min(c, 4)
     log(I, 'STEPS').append((gen, how, c, arg))
     if c == 0:
         v = I.st.fresh_ref('Yielded')
@@ -77,6 +79,8 @@ def step(I, gen, how, arg=None):
     if how == 'next':
         # protocol (trusted): an internal wait/call/value generator (one that has a parent) does not raise from next()
         I.assume(I.local('parent').t == core.null(), 'protocol: internal generators with a parent do not raise from next()')
+    if base_exc:
+        lib.raise_(I, 'GeneratorExit', VStr('generator failed with a BaseException that is not an Exception'))
     lib.raise_(I, 'Exception', VStr('generator failed'))
 
 
